@@ -381,6 +381,18 @@ pub fn run_find(sc: &FindScenario, ctx: &mut Ctx) -> FindObs {
     run_find_in(sc, ctx, "A")
 }
 
+/// The list of starting points next to the tree, when the scenario uses one; otherwise nothing
+/// of an earlier run may be left there: a link that leads out of the tree (`../..`) under a
+/// follow mode finds whatever is next to it. Properties that walk the tree themselves before
+/// the run call this first, so that their walk and find's see the same things.
+pub fn prepare_side_files(sc: &FindScenario, root: &Path) {
+    if let Some(list) = sc.starts_file_content() {
+        let _ = fs::write(root.join(STARTS_FILE), list);
+    } else if !sc.argv.iter().any(|a| a == "-files0-from") {
+        let _ = fs::remove_file(root.join(STARTS_FILE));
+    }
+}
+
 /// Run find_main with cwd = `root` (tree already there).
 pub fn run_find_prebuilt(sc: &FindScenario, ctx: &mut Ctx, root: PathBuf) -> FindObs {
     ctx.prepare_process(sc.rlimit_stack, sc.env.as_deref());
@@ -388,9 +400,7 @@ pub fn run_find_prebuilt(sc: &FindScenario, ctx: &mut Ctx, root: PathBuf) -> Fin
         // (an empty root: the process is already there, and paths are used as they are)
         std::env::set_current_dir(&root).expect("chdir scratch root");
     }
-    if let Some(list) = sc.starts_file_content() {
-        let _ = fs::write(root.join(STARTS_FILE), list);
-    }
+    prepare_side_files(sc, &root);
     let cwd = match &sc.cwd_sub {
         Some(sub) => root.join(sub),
         None => root.clone(),
